@@ -6,7 +6,7 @@ import itertools
 from .. import runner, explore, coll, gen
 from .c09 import run_collection
 
-RULE = ('Every permutation of message lists of n <= N documents (roCreate + messages) whose message IDs have mixed digit '
+RULE = ('Every permutation of message lists of n <= N documents (roCreate + order-sensitive messages; also lists that send one instruction again under further message IDs) whose message IDs have mixed digit '
         'counts ({9,10,100}, {2,10,1000,99}, {7,70,700,8}, {9,4000000000,2000000000,3}, {7,0,10,100}, ...), for each of the three constructors (from_strings, '
         'from_files, from_s3 with the listing order permuted); plus sorted() / pairwise < on the MosFile objects. Oracle: '
         'reader message IDs ascend numerically for every permutation; one distinct str(mc) per list across all its '
@@ -28,10 +28,15 @@ def split_ids(ids, ro_pos):
     return ro, [i for i in ids if i != ro]
 
 
-def messages_for(ids):
+def messages_for(ids, variant='std'):
     """roCreate gets the first id; the others are order-sensitive messages."""
     g = gen
     st = lambda i: g.story_xml(i, 0)                     # noqa
+    if variant == 'repeat':
+        # the same instruction sent again later under another message ID (a story moved up, elsewhere, and up again):
+        # every one of them counts, at its own place in the numeric order
+        ops = [lambda n, t=t: g.msg_story_move('C', t, msg_id=n) for t in ('A', 'AB', 'A', 'AB', 'A')]
+        return ids[0], [op(n) for op, n in zip(ops, ids[1:])]
     ops = [
         lambda n: g.msg_story_append([st('E')], msg_id=n),
         lambda n: g.msg_story_move('E', 'A', msg_id=n),            # fails unless E was appended before
@@ -48,10 +53,11 @@ def worker(ns, items, res, opts):
     store = coll.FakeS3()
     store.install(ns)
     try:
-        for ids, order, ctor, ro_pos in items:
+        for ids, order, ctor, ro_pos, *var in items:
+            variant = var[0] if var else 'std'
             ro_id, rest = split_ids(ids, ro_pos)
             ids = (ro_id,) + tuple(rest)
-            ro_id, msgs = messages_for(ids)
+            ro_id, msgs = messages_for(ids, variant)
             ro_text = coll.base_ro(msg_id=ro_id)
             by_id = sorted(zip(ids[1:], msgs))
             ref = coll.fold(ns, ro_text, [t for _, t in by_id], strict=False)
@@ -59,7 +65,7 @@ def worker(ns, items, res, opts):
             res.transitions += 1
             if list(order) != sorted(order):
                 res.nontrivial += 1
-            res.by_class[f'n={len(ids)}:{ctor}:roCreate={ro_pos}'] += 1
+            res.by_class[f'n={len(ids)}:{ctor}:roCreate={ro_pos}' + ('' if variant == 'std' else ':' + variant)] += 1
             res.by_outcome['failed=%d' % len(ref['failed'])] += 1
             want_ids = sorted(ids[1:])
             if got['exc'] is not None and str(got['exc']).startswith('CTOR'):
@@ -110,6 +116,8 @@ def run(tier):
                 for ctor in ('strings', 'files', 's3'):
                     for ro_pos in ('min', 'mid', 'max'):
                         items.append((sub, order, ctor, ro_pos))
+                    if n >= 4 and ids in sets[2:4]:
+                        items.append((sub, order, ctor, 'min', 'repeat'))
     parts = [{'label': 'permutations', 'worker': worker, 'items': items, 'chunk': 60}]
     return runner.enum_check(
         'C10', tier, parts, rule=RULE,
